@@ -32,6 +32,10 @@ def runC17 (c : Case) : Verdict :=
     let m := (complementEnc (seq.map (enc false))).map dec
     let s := seq.map fun b => upper (specCompSym b)
     functional (c.get "go") (bytesToString m) (bytesToString s)
+  | "encdec" =>
+    -- encode under either gap mode, then EncodedFastaRecord.Decode: the upper-cased text
+    let m := (seq.map (enc (c.bool "hard"))).map dec
+    functional (c.get "go") (bytesToString m) (bytesToString (seq.map upper))
   | "encrevcomp" =>
     let m := (reverseComplementEnc (seq.map (enc false))).map dec
     let s := (seq.map fun b => upper (specCompSym b)).reverse
